@@ -1,24 +1,36 @@
 (** C06: run() reaches quiescence; lazy after main; idle only on request (Layer R). *)
 From Coq Require Import ZArith NArith List.
 Import ListNotations.
-From Stk Require Import Lib.U R.Syntax R.Rt R.Mon R.C06Proofs.
+From Stk Require Import Lib.U R.Syntax R.Rt R.Mon R.C06Proofs R.C06cProofs.
 
-(* For every program, fuel and deferrer kind: the plain-closure conjunct of C06 holds of the trace of a terminated
-   execution of the model: the main, lazy and idle queues are FIFO lists; main and lazy are empty whenever run returns
-   (including work created while it ran); a lazy closure starts only with the main queue empty or inside a lazy batch
-   whose items made the pending work; the idle closure runs only with idle=true, at most one, before anything else; and
-   run returns true exactly when idle closures remain.
-   PARTIAL with respect to C06_ok = C06_plain_ok && C06_calls_ok: the second conjunct (actor calls travelling through
-   the main queue count as pending main-queue work unless their target is still in Prep) is validated on every real
-   and model trace by ./check C06 but not proved. *)
-Theorem C06_quiescence_lazy_idle_partial : forall (d : dkind) (p : list top) (fuel : nat) (t : list ev),
+(* For every program and every amount of fuel, with the global / thread-local deferrer: the monitor C06_ok (R/Mon.v)
+   holds of the trace of a terminated execution of the model.  C06_ok = C06_plain_ok && C06_calls_ok:
+   - plain closures: the main, lazy and idle queues are FIFO lists; main and lazy are empty whenever run returns
+     (including work created while it ran); a lazy closure starts only with the main queue empty or inside a lazy
+     batch whose items made the pending work; the idle closure runs only with idle=true, at most one, before
+     anything else; run returns true exactly when idle closures remain;
+   - actor calls: a call that went through the main queue and has neither started nor been dropped is pending
+     main-queue work unless its target is still in Prep (then it waits in the Prep queue); no such call is pending
+     when run returns, nor when a lazy closure starts (except those the lazy batch itself submitted). *)
+Theorem C06_quiescence_lazy_idle : forall (p : list top) (fuel : nat) (t : list ev),
+  exec DGlobal fuel p = Done t -> C06_ok t = true.
+Proof. exact C06_proved. Qed.
+Print Assumptions C06_quiescence_lazy_idle.
+
+(* The plain-closure conjunct holds for the inline deferrer as well.  (The calls conjunct is stated for DGlobal:
+   with the inline deferrer a call submitted while no Stakker exists, or left queued by the field phase of
+   Stakker::drop, is never touched again and would count as pending for ever.) *)
+Theorem C06_plain_any_deferrer : forall (d : dkind) (p : list top) (fuel : nat) (t : list ev),
   exec d fuel p = Done t -> C06_plain_ok t = true.
 Proof. exact C06_plain_proved. Qed.
-Print Assumptions C06_quiescence_lazy_idle_partial.
+Print Assumptions C06_plain_any_deferrer.
 
 Example C06_example :
-  exists t, exec DGlobal 400 [TNew 0; TDo [ALazy (Clo 1 0 0 [] [ADefer (Clo 2 0 0 [] []); ALazy (Clo 3 0 0 [] [])]);
-                                         AIdle (Clo 4 0 0 [] []); AIdle (Clo 5 0 0 [] []); ADefer (Clo 6 0 0 [] [])];
-                                  TRun 2 false; TRun 4 true] = Done t
-            /\ In (ERunRet true) t /\ In (ERun 1%N 2%Z QLazy) t /\ In (ERun 6%N 2%Z QLazy) t /\ In (ERun 2%N 2%Z QIdle) t.
-Proof. exact C06_nontrivial. Qed.
+  exists t, exec DGlobal 600
+    [TNew 0;
+     TDo [ANewActor 1 1 None; ACall 1 (Clo 1 0 0 [] []);
+          ALazy (Clo 2 0 0 [] [ACall 1 (Clo 3 0 0 [] [])])];
+     TRun 2 false;
+     TDo [ACallPrep 1 (Clo 4 0 0 [] []) true]; TRun 4 false] = Done t
+    /\ In (ERun 2%N 2%Z QLazy) t /\ In (ERunRet false) t /\ In (EMeth 1%N 1%N 4%Z) t /\ In (EMeth 1%N 3%N 4%Z) t.
+Proof. exact C06_calls_nontrivial. Qed.
